@@ -16,17 +16,3 @@ mod prod;
 #[cfg(kani)]
 mod fss;
 
-/// Stub for the arena's private slow path (`ByteArena::grow_and_alloc`): in these harnesses the
-/// arena is pre-warmed with one 32-byte chunk and fewer than 32 bytes are ever copied, so the slow
-/// path (drop the old chunk, size a new one, allocate it) is never taken; the stub turns any use
-/// of it into a failed check instead of encoding it at every copy site.
-#[cfg(kani)]
-pub fn stub_grow_and_alloc(
-    _arena: &mut owning_iovec::ByteArena,
-    _len: usize,
-    _old: Option<&mut owning_iovec::Anchor>,
-) -> (std::io::IoSlice<'static>, Option<owning_iovec::Anchor>) {
-    assert!(false, "arena regrowth is outside the bound of this harness");
-    kani::assume(false);
-    unreachable!()
-}
